@@ -17,7 +17,7 @@
 //!   handle.begin{a,p,n,k} handle.end{a,p,n,ok,ss} logged inside the handler
 //!   stop.call{p,a} stop.ret{p,res}                res: true | false
 //!   lookup.call{p,name} lookup.ret{p,found}       found: actor id or -1
-//!   gjoin.call{p,a,tok} gjoin.ret{p}  gleave.call{p,tok} gleave.ret{p}
+//!   gjoin.call{p,a,tok} gjoin.ret{p}  gleave.call{p,tok} gleave.ret{p}  glen.call{p} glen.ret{p,len}
 //!   sup.event{p,k,a} sup.done{p}                  logged inside the supervisor's handler
 //!   exit{a,res}                                   the ActorHandle resolved: stopped | failed | lost
 //!
@@ -201,9 +201,9 @@ impl Actor for W {
     type State = ();
 
     async fn pre_start(&self, _me: &Mailbox<Self>, (): ()) -> Result<(), String> {
-        self.hook("pre_start", self.spec.pre_ok)?;
+        // logged when start-up is decided (after the delay): "start-up succeeded" is this point
         nap(self.spec.pre_delay).await;
-        Ok(())
+        self.hook("pre_start", self.spec.pre_ok)
     }
 
     async fn post_start(&self, _me: &Mailbox<Self>, _s: &mut ()) -> Result<(), String> {
@@ -471,6 +471,11 @@ fn run_thread(sh: Arc<Shared>, cluster: Cluster, t: usize, ops: Vec<Op>, specs: 
                 let r = sh.group.send(Msg { p, n, k: k.clone(), d });
                 sh.log.put(json!({"e": "send.ret", "p": p, "res": deliver_res(&r)}));
             }
+            Op::GLen => {
+                sh.log.put(json!({"e": "glen.call", "p": p}));
+                let len = sh.group.len();
+                sh.log.put(json!({"e": "glen.ret", "p": p, "len": len}));
+            }
             Op::Pause { us } => pause(us),
         }
     }
@@ -676,10 +681,10 @@ fn main() {
     let mut aborted = false;
     for run in 0..runs {
         // programs with calls first, so that the hang watchdog of a parked call overlaps with later runs
-        let class = match (run * 10) / runs.max(1) {
-            0..=3 => 0,
-            4 => 3,
-            5..=7 => 1,
+        let class = match (run * 20) / runs.max(1) {
+            0..=6 => 0,
+            7..=8 => 3,
+            9..=13 => 1,
             _ => 2,
         };
         let prog = match &replay {
